@@ -125,6 +125,19 @@ func main() {
 		}
 	}
 	t0 := time.Now()
+	// replay of a real-socket leg case: re-run that leg
+	if c.Replay != nil {
+		var probe struct {
+			Leg  string `json:"leg"`
+			What string `json:"what"`
+		}
+		if json.Unmarshal(c.Replay, &probe) == nil && probe.What != "" && probe.Leg == id {
+			if f, ok := map[string]func(*Ctx){"C01": runSockLegC01, "C02": runSockLegC02, "C13": runSockLegC13, "C14": runSockLegC14}[id]; ok {
+				c.Replay = nil
+				ck = check{run: f}
+			}
+		}
+	}
 	ck.run(c)
 	c.R.Count("worker_wall_ms", time.Since(t0).Milliseconds())
 	if *out != "" {
